@@ -108,6 +108,7 @@ func runC16(w *W) {
 		w.World.GCNum, w.World.GCDen, w.World.GCBudget = 1, pickInt(t, "deep.gcden", 2, 4, 16), 12
 		w.Sig(fmt.Sprintf("deep:reqs%d", knobs.ReqsCap))
 	}
+	so.SplitFiles = !so.ConstDefaults && t.Chance(1, 4, "sch.split")
 	sch := genSchema(t, so)
 	if deep && t.Chance(1, 2, "deep.reqscap.exact") {
 		// an arena that the bitmaps of the first k levels of the chain fill exactly
